@@ -4,6 +4,7 @@ import (
 	"context"
 	"fmt"
 	"io"
+	"strings"
 	"sync"
 
 	"github.com/klauspost/compress/gzip"
@@ -147,6 +148,13 @@ func StatisticSeries(rows []parser.Row, rc []*relabel.Config, result *Statistics
 	defer result.lk.Unlock()
 
 	for _, row := range rows {
+		// the parser takes everything in front of the first "{" for the name: a sample without labels
+		// that carries an OpenMetrics exemplar (name 17 # {trace_id="x"} 0.67) comes out with
+		// "name 17 #" as its name and the labels of the exemplar as its own
+		if i := strings.IndexAny(row.Metric, " \t"); i >= 0 {
+			row.Metric, row.Tags = row.Metric[:i], nil
+		}
+
 		var lset labels.Labels
 		lset = append(lset, labels.Label{
 			Name:  "__name__",
